@@ -54,6 +54,13 @@ class PcapNg:
         return self.block(EPB, struct.pack(self.e + "IIIII", 0, ts_units >> 32, ts_units & 0xFFFFFFFF,
                                            len(frame), len(frame)) + _pad(frame))
 
+    def spb(self, frame=None):
+        """Simple Packet Block (type 3): original length + data, no interface id, NO timestamp.  Default content: an ARP-like frame
+        that belongs to no connection (a reader may ignore it or not; it can never be part of an export)."""
+        if frame is None:
+            frame = b"\xff" * 6 + b"\x02\x00\x00\x00\x00\x09" + b"\x08\x06" + bytes(28)
+        return self.block(3, struct.pack(self.e + "I", len(frame)) + _pad(frame))
+
     def dsb(self, text: bytes):
         return self.block(DSB, struct.pack(self.e + "II", TLSK, len(text)) + _pad(text))
 
@@ -84,6 +91,8 @@ class PcapNg:
                 out.append(self.block(EPB, struct.pack(self.e + "IIIII", 1, b[1] >> 32, b[1] & 0xFFFFFFFF, len(fr), len(fr)) + _pad(fr)))
             elif k == "dsb":
                 out.append(self.dsb(b[1]))
+            elif k == "spbpkt":                # a captured packet stored as a Simple Packet Block (no timestamp)
+                out.append(self.spb(b[1]))
             else:
                 out.append(getattr(self, k)())
         return b"".join(out)
@@ -95,10 +104,11 @@ def units_per_second(tsresol):
     return 2 ** (tsresol & 0x7F) if tsresol & 0x80 else 10 ** tsresol
 
 
-def pcapng_bytes(pkts, le=True, tsresol=None, tsoffset=None, dsbs=(), extra=(), pre_idb=(), shb_opts=False, second_if=None):
+def pcapng_bytes(pkts, le=True, tsresol=None, tsoffset=None, dsbs=(), extra=(), pre_idb=(), shb_opts=False, second_if=None, spb=()):
     """pkts: list of (ts_us:int, frame) -- or (ts_num, ts_den_per_s ...) handled by caller.
     dsbs: list of (position, text) -- position = index in pkts before which the DSB is written (len(pkts) = end)
-    extra: list of (position, kind)"""
+    extra: list of (position, kind)
+    spb: indices of packets stored as Simple Packet Blocks (no timestamp)"""
     w = PcapNg(le=le, tsresol=tsresol, tsoffset=tsoffset, shb_opts=shb_opts)
     ups = units_per_second(tsresol)
     off = tsoffset or 0
@@ -116,6 +126,9 @@ def pcapng_bytes(pkts, le=True, tsresol=None, tsoffset=None, dsbs=(), extra=(), 
             units = (num - off * den) * ups // den
         else:
             units = (ts_us - off * 10 ** 6) * ups // 10 ** 6
+        if i in spb:                                   # this packet was stored as a Simple Packet Block: it has no timestamp in the file
+            blocks.append(("spbpkt", frame))
+            continue
         if second_if is not None and i % 2 == 1:      # every second packet was captured on a second interface with its own resolution / offset
             r2, o2 = second_if
             ups2, off2 = units_per_second(r2), (o2 or 0)
